@@ -97,9 +97,9 @@ def trace_reads(mps, olist):
 
     formula = []
 
-    def expect(self, observable):
+    def expect(self, observable, *xa, **xk):
         log.append((ids[id(observable)], centre_of(self)))
-        val = saved[0](self, observable)
+        val = saved[0](self, observable, *xa, **xk)
         # the contraction the theorem C11_centred_expectation_is_dense is about, evaluated on the real centre tensor(s):
         #   sum_{p,p',l,r} O[p,p'] A[p',l,r] conj(A[p,l,r])   (two sites: A = merged tensor, physical index p1*d2+p2)
         try:
@@ -116,13 +116,13 @@ def trace_reads(mps, olist):
 
     cur = {}
 
-    def ent(self, sites):
+    def ent(self, sites, *xa, **xk):
         log.append((cur["k"], centre_of(self)))
-        return saved[1](self, sites)
+        return saved[1](self, sites, *xa, **xk)
 
-    def sch(self, sites):
+    def sch(self, sites, *xa, **xk):
         log.append((cur["k"], centre_of(self)))
-        return saved[2](self, sites)
+        return saved[2](self, sites, *xa, **xk)
 
     MPS.expect, MPS.get_entropy, MPS.get_schmidt_spectrum = expect, ent, sch
     try:
@@ -133,13 +133,13 @@ def trace_reads(mps, olist):
         it = iter(bond_ids)
         real_ent, real_sch = ent, sch
 
-        def ent2(self, sites):
+        def ent2(self, sites, *xa, **xk):
             cur["k"] = next(it)
-            return real_ent(self, sites)
+            return real_ent(self, sites, *xa, **xk)
 
-        def sch2(self, sites):
+        def sch2(self, sites, *xa, **xk):
             cur["k"] = next(it)
-            return real_sch(self, sites)
+            return real_sch(self, sites, *xa, **xk)
 
         MPS.get_entropy, MPS.get_schmidt_spectrum = ent2, sch2
         mps.evaluate_observables(p, res, 0)
